@@ -272,6 +272,7 @@ def check():
                 bad.append(why or name)
             return ok
         c15.store_lemmas(o, ML, E, structural)
+        c15.diagnostics_loop_lemma(o, ML, E, structural)
     except KeyError as e:
         o.inconc(str(e)[:160])
 
@@ -364,6 +365,9 @@ CASES = {
     "syntax-error-in-main-clean-import": ('use "m.oal" as m;\nres /items on get -> <m.item>; ;\n', {"m.oal": "let item = { 'id num };\n"}, 1),
     "syntax-error-in-first-of-two-imports": ('use "a.oal" as a;\nuse "b.oal" as b;\nres / on get -> <a.t & b.u>;\n', {"a.oal": "let t = { 'x num }; }\n", "b.oal": "let u = { 'y str };\n"}, 1),
     "type-error-in-import": ('use "m.oal" as m;\nres / on get -> <m.t>;\n', {"m.oal": "let t = {} & num;\n"}, 1),
+    # errors located by an empty span: cycles among the modules
+    "import-cycle": ('use "a.oal" as a;\nres / on get -> <{}>;\n', {"a.oal": 'use "b.oal" as b;\nlet t = {};\n', "b.oal": 'use "a.oal" as a;\nlet u = {};\n'}, 1),
+    "self-import": ('use "main.oal" as me;\nres / on get -> <{}>;\n', {}, 1),
     "no-resources": ("let a = { 'x num };\nlet f y = [y];\n", {}, 0),
     "imports-only": ('use "m.oal" as m;\n', {"m.oal": "let t = { 'k str };\n"}, 0),
     "byte-order-mark": ("\ufeffres / on get -> <{}>;\n", {}, 1),
